@@ -104,6 +104,12 @@ EXTRA = {
  "C07": " The suite srv-fault injects, at the libc boundary of the harness process (interposed recvmsg/write, nothing in /repo instrumented), reads that end or fail on a plain IN event and writes that return zero / EINTR / EAGAIN / EPIPE / short counts; a 500 must reach only a client whose read failed.",
  "C09": " The suite srv-fault injects, at the libc boundary of the harness process (interposed recvmsg/write, nothing in /repo instrumented), reads that end or fail on a plain IN event and writes that return zero / EINTR / EAGAIN / EPIPE / short counts: the poll must keep returning normally, the witness must be served in full, and a connection the server was told has ended must be released once answered.",
 }
+ENUM_CONN = " Small-scope suite conn-enum: every sequence of up to 4 (thorough: 5) operations of one connection over a 19-letter alphabet (request pieces with and without descriptors, an Expect head and its body bytes, empty read, end of stream, pop, enqueue, full / short / interrupted / failed write, clear) — 137 560 histories replayed on the model op by op, with panic, output-prefix and descriptor oracles on the implementation."
+ENUM_SRV = " Small-scope suite srv-enum: two accepted clients, then every sequence of up to 3 (thorough: 4) steps over 13 (request whole / in halves / Expect head then body / garbage, close, half-close, a second client's request, poll, answer oldest / newest, read, a third client, flush); histories are first drained without further answers (everything already supplied must arrive), then settled."
+for k in ["C01", "C03", "C06", "C11", "C12", "C13"]:
+    EXTRA[k] = EXTRA.get(k, "") + ENUM_CONN
+for k in ["C07", "C08", "C09"]:
+    EXTRA[k] = EXTRA.get(k, "") + ENUM_SRV
 for pid in ids:
     if pid in props and props[pid].get("theorems") and pid in TEXT:
         text, note = TEXT[pid]
